@@ -129,13 +129,18 @@ def plan(tier, rng, sl, nslices, stats):
     for i in range(cfg["random"]):
         token = rng.random() < 0.4
         vcs = ["int", "str", "merged"] if token else None
-        a = gfa.random_case(rng, max_states=4, max_syms=3, vcs=vcs, token=token)
+        if token and rng.random() < 0.25:
+            a = gfa.random_loop_case(rng)
+        else:
+            a = gfa.random_case(rng, max_states=4, max_syms=3, vcs=vcs, token=token)
         r = rng.random()
         if r < 0.1:
             b = None      # same object twice
         else:
             b = gfa.random_case(rng, max_states=4, max_syms=3, vcs=[a["vc"]] if a["vc"] in ("tuple", "inject", "mixed") else
                                 ["int", "str", "merged"], token=token)
+            if token and rng.random() < 0.2:
+                b = gfa.random_loop_case(rng)
             if b["vc"] == "inject":
                 b["sperm"] = a["sperm"][:] + list(range(len(a["sperm"]), 5))
                 a["sperm"] = b["sperm"]
